@@ -26,6 +26,9 @@ def run(tier):
     # ---- cancellation sweep
     K = 400 if thorough else 140
     corpus = [(name, p, root, render(p, root)) for name, p, root in gen_loops.loops()]
+    only = os.environ.get("VERIF_C11_ONLY")
+    if only:
+        corpus = [c for c in corpus if c[0] == only.replace("@thread", "")]
     # every program also runs in a state made by NewThread with the context attached to that state
     corpus = corpus + [(name + "@thread", p, root, src) for name, p, root, src in corpus]
     runs, index = [], {}
@@ -123,6 +126,9 @@ def run(tier):
 
 
 def replay(path):
+    """re-runs the cancellation sweep of the program named in the replay file"""
     rec = json.load(open(path))
-    print(json.dumps(rec["replay"])[:2000])
-    return 1
+    r = rec["replay"]
+    if "program" in r and isinstance(r["program"], str):
+        os.environ["VERIF_C11_ONLY"] = r["program"]
+    return run("quick")
